@@ -38,7 +38,7 @@ NUMS = ['1', '-1', '+1', '0', '1.5', '-1.5e3', '1e400', '-1e400', '1e-400', 'inf
         '.5', '5.', '.', 'e5', '1e', '1e+', '1_0', '1__0', '_1', '1_', '0x10', '1 ', ' 1', '1\xa0', '٣', '٣.٥', '１e１', '007', '1.0e+06',
         '9' * 4300, '9' * 4301, '0' * 5000, '1' + '0' * 400, '0.' + '0' * 400 + '1', '4.9e-324', '2.4703282292062327e-324',
         '2.4703282292062328e-324', '1.7976931348623157e308', '1.7976931348623159e308', '2.2250738585072011e-308',
-        '9007199254740993', '9007199254740992.5', '0.1', '123456789012345678', '--1', '+-1', '1e5.5', '1..2', '', '-', '+', 'infinit', 'in']
+        '1\x1c', '\x1f1', '1\x85', '\u20281', '1\x0b', '9007199254740993', '9007199254740992.5', '0.1', '123456789012345678', '--1', '+-1', '1e5.5', '1..2', '', '-', '+', 'infinit', 'in']
 
 
 def rand_num_text(rng):
